@@ -23,6 +23,8 @@ FIXED = [
   "after a REG_ERR a link is disconnected but keeps phase Warming/Live; a later datagram refreshes last_received, so the enhanced selector (score -0.8 > initial best -1.0) routed data onto it and the stall guard counted it as the healthy alternative and gated the only real link. Replay: 2 links, conn_timeout 1001 ms, idle flapping until a REG1 is answered REG_ERR, then a burst."),
  ("C08", "C08.liveness:registering_link_kept_alive", "fix: a disconnected uplink does not wait",
   "a disconnected link (answered REG_ERR after a receiver restart, or REG3 lost) that hears one stray datagram was judged by the tunable conn_timeout_ms and not re-attempted for up to 60 s although its path delivered and the receiver would have accepted it. Replay: 3 links, conn_timeout 60000 ms, receiver restart at 4.1 s; link down for > 32 s after the faults ended."),
+ ("C16", "C16.growth:reseed_at_floor", "fix: seed the per-link CC target once",
+  "LinkCongestionState::tick re-seeded the target whenever it equalled the 100 kbit/s floor, not only on the first non-bootstrap tick: after drain entries / back-off had driven it to the floor the next tick set it to max(observed, 1 Mbit/s) (100000 -> 4000000 in one tick in the replay), far above the 6 % per-tick growth bound."),
 ]
 KNOWN = []
 
